@@ -181,7 +181,36 @@ def _m_bytearray(eng, *args):
     raise OutOfSubset('bytearray(%s)' % type(n).__name__)
 
 
+def _m_bytes(eng, *args):
+    """bytes(n): n zero bytes; bytes(b): copy of a byte string; bytes(iterable of ints)"""
+    if not args:
+        return BytesVal([])
+    v = args[0]
+    if isinstance(v, BytesVal):
+        return BytesVal(list(v.bs))
+    if isinstance(v, (bytes, bytearray)):
+        return BytesVal(list(v))
+    if isinstance(v, int) and not isinstance(v, bool):
+        if v < 0:
+            raise PyRaise(eng.make_exc(ValueError, 'negative count'))
+        if v > 64:
+            raise OutOfSubset('bytes(%d)' % v)
+        return BytesVal([0] * v)
+    if sym.is_intlike(v):
+        for c in range(0, 65):
+            if eng.istrue(cmp('==', v, c)):
+                return BytesVal([0] * c)
+        eng.host_check(sym.zb(cmp('>=', v, 0)), ValueError, 'negative count')
+        raise OutOfSubset('bytes(n) with n > 64')
+    if isinstance(v, (list, tuple)):
+        for b in v:
+            eng.host_check(sym.zb(land(cmp('>=', b, 0), cmp('<=', b, 255))), ValueError, 'bytes must be in range(0, 256)')
+        return BytesVal(list(v))
+    raise OutOfSubset('bytes(%s)' % type(v).__name__)
+
+
 def install():
     NATIVE_MODELS[struct.unpack] = _m_unpack
     NATIVE_MODELS[struct.pack] = _m_pack
     NATIVE_MODELS[bytearray] = _m_bytearray
+    NATIVE_MODELS[bytes] = _m_bytes
